@@ -530,3 +530,67 @@ func signatureRange(r *core.Run, rule, recv, method string, must, may []string) 
 	}
 	r.Check(bad == "", rule, key, fn.Pos(), "raises {"+kindsOf(got)+"} within must {"+kindSet(must...)+"} may {"+kindSet(may...)+"}", bad)
 }
+
+// euclidRule: signed fixed-point code must divide with truncation toward zero (big.Int.Quo / Rem), the rounding of the
+// plain operators and of every other fixed-point type. big.Int.Div / Mod / DivMod implement Euclidean division, which
+// differs exactly for negative operands with an inexact quotient (-1.5 → -2). Every call of the Euclidean methods in a
+// function of the signed fixed-point value types (receiver Fix64Value / Fix128Value, or a helper named after them) must be
+// listed in tables/fix_euclid_reviewed with the reason why its rounding does not matter.
+func euclidRule(r *core.Run, rule string, inScope func(fn *ssa.Function) bool, minFns, minQuo int) {
+	w := r.W
+	reviewed := map[string]string{}
+	if !r.Table("fix_euclid_reviewed", &reviewed) {
+		return
+	}
+	used := map[string]bool{}
+	nFns, nQuo := 0, 0
+	for _, fn := range w.SrcFuncs() {
+		if fn.Parent() != nil || fn.Pkg == nil {
+			continue
+		}
+		pp := fn.Pkg.Pkg.Path()
+		if pp != mod+"/interpreter" && pp != mod+"/values" && pp != mod+"/fixedpoint" {
+			continue
+		}
+		recv := core.RecvName0(fn)
+		lname := strings.ToLower(fn.Name())
+		signedFix := recv == "Fix64Value" || recv == "Fix128Value" ||
+			((strings.Contains(lname, "fix64") || strings.Contains(lname, "fix128")) && !strings.Contains(lname, "ufix"))
+		if !signedFix || !inScope(fn) {
+			continue
+		}
+		nFns++
+		for _, c := range core.Calls(fn, true) {
+			sc := c.Common().StaticCallee()
+			if sc == nil || sc.Pkg == nil || sc.Pkg.Pkg.Path() != "math/big" || sc.Signature.Recv() == nil {
+				continue
+			}
+			if !strings.Contains(sc.Signature.Recv().Type().String(), "big.Int") {
+				continue
+			}
+			switch sc.Name() {
+			case "Quo", "Rem", "QuoRem":
+				nQuo++
+			case "Div", "Mod", "DivMod":
+				key := core.SSAKey(fn) + ": big.Int." + sc.Name()
+				if why, ok := reviewed[key]; ok {
+					used[key] = true
+					r.OK(rule, key, c.Pos(), "reviewed: "+why)
+					continue
+				}
+				r.Bad(rule, key, c.Pos(), "signed fixed-point code divides with Euclidean rounding (big.Int."+sc.Name()+"): for a negative operand with an inexact quotient the result is rounded away from zero instead of truncated (-1.5 → -2)")
+			}
+		}
+	}
+	r.Check(nFns >= minFns && nQuo >= minQuo, rule, "signed fixed-point functions examined", 0, itoa(nFns)+" functions, "+itoa(nQuo)+" truncating divisions", "fewer signed fixed-point functions / truncating divisions than reviewed")
+	r.Floor(rule, 1)
+}
+
+// isFixArithmetic: the arithmetic methods of a fixed-point value type (the plain operators and their saturating variants).
+func isFixArithmetic(fn *ssa.Function) bool {
+	switch fn.Name() {
+	case "Plus", "Minus", "Mul", "Div", "Mod", "Negate":
+		return true
+	}
+	return strings.HasPrefix(fn.Name(), "Saturating")
+}
